@@ -17,5 +17,14 @@ if ! cargo build --release --offline >"$LOG.$$" 2>&1; then
   exit 2
 fi
 rm -f "$LOG.$$"
+# C13 also drives a libFuzzer target (harness/fuzz): quick uses the dev profile
+# (rebuilds in seconds after a source change), thorough the optimised build.
+if [ "${1:-}" = "C13" ] && [ "${3:-}" != "--replay" ]; then
+  PROFILE="--dev"; [ "${2:-quick}" = "thorough" ] && PROFILE="--release"
+  if ! (cd "$HERE/harness/fuzz" && RUSTFLAGS="--cfg gdsl_verif" cargo +nightly fuzz build $PROFILE deser >"$LOG.fuzz.$$" 2>&1); then
+    echo "note: fuzz target did not build (the check reports this as inconclusive)"; tail -5 "$LOG.fuzz.$$"
+  fi
+  rm -f "$LOG.fuzz.$$"
+fi
 cd "$HERE" || exit 2
 exec "$HERE/harness/target/release/gv" "$@"
